@@ -1207,3 +1207,25 @@ def _mentions(t, a):
     for x in _walk([t]):
         if x.eq(a): return True
     return False
+
+
+# ----------------------------------------------------------------------------- further API surface seen in plausible rewrites
+@contract(r'^<Vec<&str> as Deref>::deref$', r'^Vec::<&str>::as_slice$')
+def c_vecstr_deref(ex, st, callee, a): return [(None, a[0])]
+
+
+@contract(r'^<impl \[&str\]>::get::<usize>$', r'^Vec::<&str>::get::<usize>$')
+def c_vecstr_get(ex, st, callee, a):
+    v = deref(st, a[0]); i = a[1]
+    if not (isinstance(v, tuple) and v[0] == 'vecstr') or not is_int_value(i): raise Unsupported('get on ' + str(v)[:40])
+    i = i.as_long(); c = st.new_cell(v[1][i] if i < len(v[1]) else String('late_part%d' % next(fresh)))
+    return [(v[2] > i, some(('ref', c, ()))), (v[2] <= i, NONE)]
+
+
+@contract(r'^<impl \[&str\]>::len$', r'^<impl \[&str\]>::is_empty$')
+def c_vecstr_slice_len(ex, st, callee, a):
+    v = deref(st, a[0]); return [(None, v[2] if callee.endswith('len') else v[2] == 0)]
+
+
+@contract(r'^GeneralPurposeConfig::new$', r'^GeneralPurposeConfig::with_', r'^GeneralPurpose::new$', r'^base64::engine::GeneralPurpose::new$', r'^base64::engine::GeneralPurposeConfig::')
+def c_custom_b64_engine(ex, st, callee, a): return [(None, ('extern_const', 'custom base64 engine built by ' + callee.split('::')[-1]))]
